@@ -690,13 +690,16 @@ Ltac fstep := repeat (progress (
   cbn [String.eqb Ascii.eqb Bool.eqb])).
 
 (* ---- parameter types ---- *)
-(* a time type keeps its scale and offset as attributes of <Encoding>: the default calibrator they stand for is absent, a spline
-   (left alone), [scale*x] or [offset + scale*x] *)
+(* a time type writes a first order default polynomial also as the scale and offset attributes of <Encoding> (any other
+   polynomial stays with the data encoding alone) and the reader rebuilds [offset; scale] from them: every polynomial survives
+   except [scale; offset] written in that order, which comes back as [offset; scale] (the same function, another term order).
+   A spline is refused by the real writer (ValueError), which the total model writer does not show: excluded. *)
 Definition time_default_ok (e : xencoding) : Prop :=
   match e with
   | XNum ne => match xn_default ne with
-               | None | Some (XSpline _ _ _) => True
-               | Some (XPoly ts) => (exists s, ts = [(s, 1%Z)]) \/ (exists o s, ts = [(o, 0%Z); (s, 1%Z)])
+               | None => True
+               | Some (XSpline _ _ _) => False
+               | Some (XPoly ts) => map snd ts <> [1%Z; 0%Z]
                end
   | _ => True
   end.
@@ -765,7 +768,7 @@ Proof.
   assert (Un : opt_s EN "units" = Ok unit).
   { unfold opt_s, get, EN. rewrite E_attrs. destruct unit; cbn [optattr app attr String.eqb Ascii.eqb Bool.eqb]; [reflexivity|].
     unfold so. destruct enc as [ne| |]; try reflexivity. destruct (xn_default ne) as [[ts|? ? ?]|]; try reflexivity.
-    destruct (List.find _ ts); destruct (List.find _ ts); reflexivity. }
+    destruct (negb (linear_exps ts)); [reflexivity|]. destruct (List.find _ ts); destruct (List.find _ ts); reflexivity. }
   rewrite Un. rewrite (So "offset" eq_refl), (So "scale" eq_refl).
   set (PT := E U (kind_tag (XKTime ab ep ofr)) [("name", AS name)] (EN :: reftime ep ofr)).
   assert (NM : req_s PT "name" = Ok name) by reflexivity. rewrite NM. cbn [bind].
@@ -781,8 +784,13 @@ Proof.
   rewrite EP, OF. clear EP OF RT FE Un So. clearbody PT EN.
   (* scale / offset *)
   unfold so. destruct enc as [ne|se|s0]; try reflexivity. cbn [time_default_ok] in Wt. destruct ne as [fl sz en od df cx]. cbn [xn_default] in *.
-  destruct df as [[ts|o1 o2 pts]|]; try reflexivity.
-  destruct Wt as [(s1 & ->)|(o1 & s1 & ->)]; reflexivity.
+  destruct df as [[ts|o1 o2 pts]|]; [|destruct Wt|reflexivity].
+  destruct (linear_exps ts) eqn:L; cbn [negb]; [|reflexivity].
+  unfold linear_exps in L.
+  destruct ts as [|[c1 e1] [|[c2 e2] [|ce3 ts]]]; cbn [map snd] in L, Wt; try discriminate L.
+  - destruct e1 as [|[p|p|]|p]; try discriminate L. reflexivity.
+  - destruct e1 as [|[p|p|]|p]; try discriminate L; destruct e2 as [|[q|q|]|q]; try discriminate L; [reflexivity|now destruct Wt].
+  - destruct e1 as [|[p|p|]|p]; try discriminate L; destruct e2 as [|[q|q|]|q]; discriminate L.
 Qed.
 
 Theorem rt_ptype t : ptype_wf t -> read_ptype U (write_ptype U t) = Ok t.
